@@ -13,7 +13,7 @@ from symx import strs
 from harness import creators as cr
 
 PROPERTY = "C12"
-MODULES = ["utils", "torrent"]
+MODULES = ["utils", "torrent", "cli", "commands"]
 ASSUMPTIONS = [
     "integer argument: every integer with |x| < 2^64 (plus a second job for 2^64 <= x < 2^1100) is one solver variable; "
     "power-of-two-ness in the oracle is a finite disjunction",
@@ -49,7 +49,8 @@ def jobs(tier):
            ("auto.path", "job_auto_path", {}),
            ("metafile.int", "job_metafile", dict(kind="int")),
            ("auto.history.grow-in-place", "job_auto_history", {}),
-           ("auto.linked-files", "job_auto_links", dict(links=True))]
+           ("auto.linked-files", "job_auto_links", dict(links=True)),
+           ("auto.namespace-reused", "job_auto_namespace", dict(reuse=True))]
     for n in (1, 2, 3):
         out.append(("config.end-to-end.n%d" % n, "job_config_e2e", dict(n=n, route="config")))
     for n in range(1, (6 if tier == "quick" else 8) + 1):
@@ -365,6 +366,41 @@ def job_auto_history(E, _mutants=None):
     E.check(g0 <= g1, "C12.auto.monotone-in-process", "the choice decreased from %r to %r although the payload grew" % (g0, g1))
 
 
+def job_auto_namespace(E, reuse=True, _mutants=None):
+    """The Namespace a create returned is used again for another (smaller) payload, no piece length ever given: the
+    automatic choice is made for the new payload."""
+    fs = AFS()
+    s0 = E.int("s0", 1, 2 ** 40)
+    s1 = E.int("s1", 1, 2 ** 40)
+    E.assume(s1 <= s0)
+    fs.add("/data/big", ("f", 0), s0)
+    fs.add("/data/small", ("f", 1), s1)
+    fs.mkdirs("/out")
+    w = World(fs, mutants=_mutants)
+
+    class NoHash:        # cut: the piece length is decided before hashing starts; hashing 2^40 bytes is not explored
+        def __init__(self, *a, **k):
+            pass
+
+        def __iter__(self):
+            return iter(())
+    w.mod("torrent").Hasher = NoHash
+    try:
+        ns = w.mod("cli").execute(["create", "--prog", "0", "-o", "/out/one.torrent", "/data/big"])
+        g0 = ns.meta["info"]["piece length"]
+        ns.content = "/data/small"
+        ns.outfile = "/out/two.torrent"
+        g1 = w.mod("commands").create(ns).meta["info"]["piece length"]
+    except SystemExit as ex:
+        E.fail("C12.auto.parser-accepts", str(ex))
+        return
+    except Exception as ex:  # noqa: BLE001
+        E.fail("C12.auto.no-exception", "%s: %s" % (type(ex).__name__, ex))
+        return
+    want = World(fs.clone(), mutants=_mutants).mod("utils").get_piece_length(s1)
+    E.check(g1 == want, "C12.auto.namespace-reused", "second create with the reused Namespace chose %r, the payload needs %r (first: %r)" % (g1, want, g0))
+
+
 def job_auto_links(E, links=True, _mutants=None):
     """Automatic piece length for a payload directory that holds symbolic links to regular files: the bytes behind a
     link are payload (they are listed and hashed), so they count for the choice like any other file's."""
@@ -435,6 +471,44 @@ def post(results, tier):
         for e in r.get("fp_log", []):
             log.add(tuple(e))
     return lemmas.fpdiv_jobs(sorted(log, key=repr))
+
+
+def _replay_auto_namespace(model, workdir):
+    import io
+    import contextlib
+    s0, s1 = int(model["s0"]), int(model["s1"])
+    os.makedirs(os.path.join(workdir, "data"))
+    os.makedirs(os.path.join(workdir, "out"))
+    for nm, n in (("big", s0), ("small", s1)):
+        with open(os.path.join(workdir, "data", nm), "wb") as f:
+            f.truncate(n)
+    mods = cr.real_torrentfile()
+    # hashing sparse files of this size for real is not feasible: the piece length is decided before hashing starts,
+    # so the hashers are replaced by one that yields nothing (only the recorded piece length is judged)
+    T = mods["torrentfile.torrent"]
+
+    class NoHash:
+        def __init__(self, *a, **k):
+            pass
+
+        def __iter__(self):
+            return iter(())
+    saved = T.Hasher
+    T.Hasher = NoHash
+    try:
+        with contextlib.redirect_stdout(io.StringIO()), contextlib.redirect_stderr(io.StringIO()):
+            ns = mods["torrentfile.cli"].execute(["create", "--prog", "0", "-o", os.path.join(workdir, "out", "one.torrent"), os.path.join(workdir, "data", "big")])
+            ns.content = os.path.join(workdir, "data", "small")
+            ns.outfile = os.path.join(workdir, "out", "two.torrent")
+            g1 = mods["torrentfile.commands"].create(ns).meta["info"]["piece length"]
+    except BaseException as ex:  # noqa: BLE001
+        return ["C12.auto.no-exception: %s: %s" % (type(ex).__name__, ex)]
+    finally:
+        T.Hasher = saved
+    want = 16384
+    while s1 / want > 1000 and want < 2 ** 24:
+        want *= 2
+    return [] if g1 == want else ["C12.auto.namespace-reused (%r vs %r)" % (g1, want)]
 
 
 def _replay_auto_links(model, workdir):
@@ -528,6 +602,8 @@ def replay(params, model, notes, workdir, seed):
         return _replay_config(params, model, notes, workdir)
     if params.get("links"):
         return _replay_auto_links(model, workdir)
+    if params.get("reuse"):
+        return _replay_auto_namespace(model, workdir)
     if "s1" in model and "s0" in model and "x" not in model and "s.g0" not in model and "a" not in model:
         return _replay_auto_history(model, workdir)
     if "x" in model and "s.g0" not in model:
